@@ -97,7 +97,7 @@ def check(run):
     def job(i):
         p = procs[i]
         # some processes run with descriptor 0 closed: the output's own open()/socket() then returns 0
-        script = list(SINKS) + (["stdin\tclosed"] if p.get("stdin_closed") else []) + ["ini\t" + hexs(ini_of(p)), "env\t" + hexlist([b"PATH=/bin"])]
+        script = (["minpid\t10000"] if p["out"] == "devlog" else []) + list(SINKS) + (["stdin\tclosed"] if p.get("stdin_closed") else []) + ["ini\t" + hexs(ini_of(p)), "env\t" + hexlist([b"PATH=/bin"])]
         for (api, path, argv) in p["calls"]:
             script.append(call_line(api, path, argv, [] if api == "execve" else None, 0, -1, 2))
         # the last call of each process is a simulated successful exec (what is not handed to the OS by then is lost)
